@@ -1,17 +1,24 @@
-(* Correspondence glue for the helper engine (C14): one case = tree, its separator, the call, and
-   what the real prune_tree / get_subtree returned (pre-order labels of the returned tree, or the
-   exception class). *)
+(* Correspondence glue for the helper engine (C14): one case = tree (Node tree, or BinaryNode tree
+   encoded with HOLE placeholders), its separator, the start node's position, the call, and what the
+   real prune_tree / get_subtree returned: pre-order labels of the returned node's subtree with
+   depths counted from the returned node (empty BinaryNode slots appear as (depth, "", [])), the
+   returned node's own `depth` attribute, or the exception class; optionally what print_tree showed
+   for the same (node_name_or_path, max_depth). *)
 From BT Require Import Base.Prelude Base.Str Base.Rose Algo.Helper Spec.PC14.
 
 Record hcase := HC {
+  hc_bin : bool;         (* BinaryNode tree *)
   hc_sep : str;          (* tree.sep *)
-  hc_tree : tree;
+  hc_tree : tree;        (* the whole tree, from its root *)
+  hc_start : pos;        (* the node the function is called on *)
   hc_call : hcall;
-  hc_obs : hobs
+  hc_obs : hobs;
+  hc_top : nat;          (* result.depth (0 when an exception was raised) *)
+  hc_print : option hobs (* print_tree lines as (depth, name, []) or its exception *)
 }.
 
 (* model against observation: same labels in the same order (= same ordered tree with the same
-   names and attributes), or the same exception class *)
+   names, attributes and empty slots), or the same exception class *)
 Definition agree (m : res tree) (o : hobs) : bool :=
   match m, o with
   | Ret t', OTree l => list_eqb lbl_eqb (obs_tree t') l
@@ -19,12 +26,34 @@ Definition agree (m : res tree) (o : hobs) : bool :=
   | _, _ => false
   end.
 
+Definition agree_print (m : res tree) (pr : option hobs) : bool :=
+  match pr with
+  | None => true
+  | Some o =>
+      match m, o with
+      | Ret t', OTree l => list_eqb lbl_eqb (shown (obs_tree t')) l
+      | Raise _, OErr _ => true
+      | _, _ => false
+      end
+  end.
+
+(* the returned node's depth attribute is compared where the property speaks about it (get_subtree:
+   "as a new root") and for calls on a root; for prune_tree on an inner node it is recorded only *)
+Definition agree_top (st : pos) (c : hcall) (m : res tree) (top : nat) : bool :=
+  match m with
+  | Raise _ => true
+  | Ret _ => match c, st with
+             | CPrune _ _ _ _, _ :: _ => true
+             | _, _ => Nat.eqb top (top_depth st c)
+             end
+  end.
+
 (* nested prune targets are outside the claim of C14: nothing is compared there *)
-Definition outside_claim (tsep : str) (t : tree) (c : hcall) : bool :=
+Definition outside_claim (bin : bool) (tsep : str) (t : tree) (st : pos) (c : hcall) : bool :=
   match c with
   | CPrune pp _ sep _ =>
       if is_nil tsep || is_nil sep then false else
-      match locate tsep sep t (norm_paths pp) with
+      match locate_at bin tsep sep t st (norm_paths pp) with
       | Ret targets => nested targets
       | Raise _ => false
       end
@@ -32,11 +61,15 @@ Definition outside_claim (tsep : str) (t : tree) (c : hcall) : bool :=
   end.
 
 Definition check_C14 (c : hcase) : nat :=
-  let m := run_call (hc_sep c) (hc_tree c) (hc_call c) in
+  let m := run_call_at (hc_bin c) (hc_sep c) (hc_tree c) (hc_start c) (hc_call c) in
   match m with
   | Raise Unmodelled => F_SKIP
   | _ =>
-      if outside_claim (hc_sep c) (hc_tree c) (hc_call c) then F_SKIP else
-      flag (negb (agree m (hc_obs c))) F_DISAGREE
-      + flag (negb (prop_C14 (hc_sep c) (hc_tree c) (hc_call c) (hc_obs c))) F_PROPFAIL
+      if outside_claim (hc_bin c) (hc_sep c) (hc_tree c) (hc_start c) (hc_call c) then F_SKIP else
+      flag (negb (agree m (hc_obs c) && agree_top (hc_start c) (hc_call c) m (hc_top c)
+                  && agree_print m (hc_print c))) F_DISAGREE
+      + flag (negb (prop_C14_at (hc_bin c) (hc_sep c) (hc_tree c) (hc_start c) (hc_call c) (hc_obs c)
+                    && prop_C14_top (hc_call c) (hc_obs c) (hc_top c)
+                    && prop_C14_print (hc_bin c) (hc_sep c) (hc_tree c) (hc_start c) (hc_call c) (hc_print c)))
+             F_PROPFAIL
   end.
